@@ -133,8 +133,16 @@ def handle (op : String) (j : Json) : R Json := do
     let cuts ← match j.getObjVal? "cuts" with
       | .ok v => (← asArr v).mapM asNat
       | .error _ => pure []
-    let outs := run rc (fresh : St String Nat String) h
-    let idl := ideal rc (fun _ => none) h
+    -- outputs of the machine, each with the answer of the memo-less machine at that point (`expected` on the state before)
+    let rec go (s : St String Nat String) (h : List HOp) (acc : List (Out String × Option String)) : List (Out String × Option String) :=
+      match h with
+      | [] => acc.reverse
+      | op :: rest =>
+        let r := step rc s op
+        go r.1 rest ((r.2, expected rc s.live op) :: acc)
+    let both := go (fresh : St String Nat String) h []
+    let outs := both.map (·.1)
+    let idl := both.map (·.2)
     let segs := segments h cuts
     -- per segment: verdicts of the segment, and the ids left dirty by everything before it
     let (segJs, _) := segs.foldl (fun (acc : List Json × List Gid) seg =>
